@@ -94,6 +94,10 @@ func c07Assignments(c *cluster.Cluster) []c07Assign {
 }
 
 func c07Child(ctx *runCtx, spec string) {
+	if strings.HasPrefix(spec, "long ") {
+		c07LongChild(ctx, spec)
+		return
+	}
 	var n, r, rounds int
 	var seed int64
 	var async bool
@@ -402,6 +406,13 @@ func c07Run(ctx *runCtx) int {
 	// asynchronous replication is a configuration too: the atomic operations read through the
 	// owner, which merges the backups' versions by timestamp
 	batches = append(batches, batch{Spec: fmt.Sprintf("N=3 R=2 rounds=%d seed=%d async=true", rounds, ctx.seed*100+88), Timeout: 15 * time.Minute})
+	lc := 1500
+	if ctx.tier == "thorough" {
+		lc = 15000
+	}
+	batches = append(batches,
+		batch{Spec: fmt.Sprintf("long N=2 R=1 calls=%d seed=%d", lc, ctx.seed*100+90), Timeout: 15 * time.Minute},
+		batch{Spec: fmt.Sprintf("long N=3 R=2 calls=%d seed=%d", lc, ctx.seed*100+91), Timeout: 15 * time.Minute})
 	rr := 1
 	if ctx.tier == "thorough" {
 		rr = 5
